@@ -107,7 +107,7 @@ def liveness(chk):
     """the effect scanner must fire on the deliberately violating twins of the fixture crate"""
     import json
     mirp, _ = facts.ensure_fixture_facts()
-    d = json.load(open(mirp))
+    d = facts.load_json_canonical(mirp)
     d["_config"] = "fixtures"
     fp = mir.Program(d)
     bodies = [fp.body(p) for p in fp._bodies_raw if "::liveness::effect_" in p]
